@@ -65,7 +65,7 @@ package storage
 //@   modifies wdb.counter
 //@   ensures err == nil ==> wdb.counter == upd(old(wdb.counter), ks.Id, ks.Counter)
 //@   ensures err != nil ==> wdb.counter == old(wdb.counter)
-//@ func (WalletDB).SaveMintQuote
+//@ func (WalletDB).SaveMintQuote(mq)
 //@   trusted
 //@   pure
 //@ func (WalletDB).GetMintQuotes
